@@ -61,8 +61,8 @@ def ToyCfg.reject (c : ToyCfg) : Option String :=
   else if c.k = 0 ∧ c.total > 0 then some "ZeroDivisionError"
   else none
 
-def ToyCfg.init (c : ToyCfg) : St Toy.Vec (Option Toy.Vec) Toy.Vec Unit :=
-  ⟨c.w0, none, List.replicate c.d 0, 0, ()⟩
+def ToyCfg.init (c : ToyCfg) : St Toy.Vec (Option Toy.Vec) Toy.Vec Nat :=
+  ⟨c.w0, none, List.replicate c.d 0, 0, 0⟩
 
 /-- `aux`: an additional model in `self.models` (parameters `w ++ v`); `oom`: iterations that hit the OOM recovery -/
 def opLoop (c : ToyCfg) (pinned aux : Bool) (oom : List Int) : String :=
@@ -72,8 +72,8 @@ def opLoop (c : ToyCfg) (pinned aux : Bool) (oom : List Int) : String :=
     let table := if pinned then loopTablePinned else loopTable
     let cfg : Cfg := { k := c.k }
     let ops := if aux then Toy.opsAux c.d c.mu else Toy.ops c.d c.mu
-    let init : St Toy.Vec (Option Toy.Vec) Toy.Vec Unit :=
-      if aux then ⟨c.w0 ++ List.replicate c.d 0, none, List.replicate (2 * c.d) 0, 0, ()⟩ else c.init
+    let init : St Toy.Vec (Option Toy.Vec) Toy.Vec Nat :=
+      if aux then ⟨c.w0 ++ List.replicate c.d 0, none, List.replicate (2 * c.d) 0, 0, 0⟩ else c.init
     let isOom : Nat → Bool := fun i => oom.contains (i : Int)
     let states := (List.range c.total).map fun n =>
       if oom.isEmpty then runRangeT table ops c.lrAt cfg c.batch init 0 (n + 1)
